@@ -38,16 +38,16 @@ CHECKS = {
              "compared bit for bit with binary32(N/D); thorough: Arabidopsis slice via the CLI. That numpy's float32 division is the IEEE correctly rounded quotient is trusted and exercised by the bit-exact comparison.",
         design="DESIGN.md 6 C03"),
     "C04": dict(
-        technique="Coq proof (cells depend on the rows only as a multiset: Permutation) + differential execution over row orders",
-        text="Theorems c04_runs/c04_perm for all permutations of either file; each generated pair run in 4-6 row orders through the real stages, outputs compared with each other and with the model; the check also builds Props/C01code.v (translated loop of OverlapWorker.calculate: rows are addressed by gene NAME, so the position of a gene in the arrays is the only thing a row order can change).",
+        technique="Coq proof (cells depend on the rows only as a multiset: Permutation; transported to the translated overlap loop, summation and lookup through the bridge code_cell = f_cell) + differential execution over row orders",
+        text="Theorems c04_runs/c04_perm for all permutations of either file; each generated pair run in 4-6 row orders through the real stages, outputs compared with each other and with the model; the check also builds Props/C01code.v (translated loop of OverlapWorker.calculate: rows are addressed by gene NAME, so the position of a gene in the arrays is the only thing a row order can change) and Props/CodeCell.v (code_cell_is_f_cell: the arrays of the translated stages read through the translated lookup are the model's labelled cells; c04_code_perm: permuting the rows of either annotation leaves every cell the translated code yields for given labels unchanged).",
         design="DESIGN.md 6 C04"),
     "C05": dict(
         technique="Coq proof (locality of a chromosome's file; refusal iff chromosome sets differ) + the file names carried by the job / result tuples translated from /repo on every run (the density stage opens the overlap job's own files) + _validate_split translated from /repo on every run and proved equal to the model's + differential execution",
-        text="Theorems c05_local/genes/files/reject; c18_code_validate_split(_iff): PreProcessor._validate_split as translated from the current sources accepts two sorted key lists iff they are equal; c05_code_overlap_files / c05_code_density_reads_own_files: the gene cache, TE cache and overlap file of a chromosome, followed through _OverlapJob, OverlapResult and MergeJob as translated from the current sources, are the files the density stage of that chromosome opens; variants differing only on other chromosomes and chromosome-set mismatches (equal and unequal cardinality, interleaving name orders) through the real stages and the CLI.",
+        text="Theorems c05_local/genes/files/reject; c18_code_validate_split(_iff): PreProcessor._validate_split as translated from the current sources accepts two sorted key lists iff they are equal; c05_code_overlap_files / c05_code_density_reads_own_files: the gene cache, TE cache and overlap file of a chromosome, followed through _OverlapJob, OverlapResult and MergeJob as translated from the current sources, are the files the density stage of that chromosome opens; c05_code_local: the cells the translated code yields for a chromosome depend only on that chromosome's genes and TEs; variants differing only on other chromosomes and chromosome-set mismatches (equal and unequal cardinality, interleaving name orders) through the real stages and the CLI.",
         design="DESIGN.md 6 C05"),
     "C06": dict(
-        technique="Coq proof (count invariant under shift and reflection, monotone in the range; transported through the C01 refinement) + differential execution on triples",
-        text="Theorems c06_shift/mirror/monotone for all shifts, reflection points and windows (untruncated left windows); triples input/shifted (to 2^31-1)/mirrored through the real stages compared with each other.",
+        technique="Coq proof (count invariant under shift and reflection, monotone in the range; transported through the C01 refinement; monotonicity also for the cells of the translated code) + differential execution on triples",
+        text="Theorems c06_shift/mirror/monotone for all shifts, reflection points and windows (untruncated left windows); c06_code_monotone: the covered count the translated code yields for a gene, group and side never decreases from a window of the file to a larger one; triples input/shifted (to 2^31-1)/mirrored through the real stages compared with each other.",
         design="DESIGN.md 6 C06"),
     "C07": dict(
         technique="Coq proof (monotonicity and sub-additivity of the covered count; transported through the C01 refinement) + oracle-free consistency pass",
@@ -94,7 +94,7 @@ CHECKS = {
         design="DESIGN.md 6 C17"),
     "C13": dict(
         technique="Coq proof (invariant of the cache state machine over all histories of edits/touches/runs/interrupted runs, any number of chromosomes, any mtime ties; refresh theorem for every disk) + cache decisions and merge guards translated from /repo on every run and proved equal to the model's + per-run correspondence on real histories",
-        text="Theorems c13_code_windows_guard/gene_names_guard/chromosome_guard: MergeData's three guards as translated from the current sources accept an overlap file iff its windows, gene names and chromosome id EQUAL the request's, and MergeData.sum calls them first; "
+        text="Theorems c13_code_windows_guard/gene_names_guard/chromosome_guard: MergeData's three guards as translated from the current sources accept an overlap file iff its windows, gene names and chromosome id EQUAL the request's, and MergeData.sum calls them first; c13_code_checked_sum (Props/C13merge.v): MergeData.sum as a whole - the translated guards followed by the translated summations, composed by the merge translator - refuses an overlap file exactly when one of its labels differs, and otherwise yields the model's cells for the REQUEST's windows and genes; "
              "c13_rerun/refresh/fresh_directory/windows over Model/Cache.v (symbolic versions, the mtime comparisons of the code as freshness relations, atomic writes, tie oracle); pinned reuse rules refuted (c13_legacy_refuted). "
              "Histories of runs with every flag subset, edits of either annotation and the windows (to a superset, subset, front-trimmed list, same count, same ends, shifted list), touches, mtime-preserving edits, backdated caches and runs killed during the revision are executed on the real command line under the launcher; "
              "every run is abstracted (contents against fresh-directory references, flags from os.path.getmtime) and compared with the model's run: files rewritten, contents afterwards, exit status, every result cell. "
